@@ -18,7 +18,8 @@ RULE = (
     "{5,2,50}, parameter corner(4), texture(3)); inside each case ALL partitions of the span: k in "
     "{1,2,5,20} uniform updates and the 7 compositions with <=3 parts on a quarter grid, the span run "
     "backwards in time in 1 and 2 updates, and two there-and-back histories; every "
-    "returned F is compared with the reference solution, det F with det F0 * exp(int tr L), split "
+    "returned F is compared with the reference solution (also with the whole history shifted to clocks "
+    "starting at 2e5, -3e7 and 1e9), det F with det F0 * exp(int tr L), split "
     "with whole. update_all over the assemblages [ol], [en], [ol,en], [en,ol]. Non-trivial: L != 0 "
     "and [L, F0] != 0 or L depends on t/x; distinct = distinct (case, partition)."
 )
@@ -81,7 +82,23 @@ def gen_cases(tier, seed):
                 if len(asm) == 1 and order == "rev":
                     continue
                 keys.append(dict(part="bulk", F0=f0n, flow=fl, asm="+".join(asm), order=order))
+    # a clock that does not start near zero: the same histories shifted to [T0, T0 + span]
+    # (interval lengths of 1e-6 .. 1e-9 relative to the time stamps; seed C06f)
+    for fl in FLOW_LETTERS:
+        for t0 in CLOCKS:
+            for fab, reg in (("olA", "disl"), ("enAB", "yield"), ("olC", "minvisc")):
+                keys.append(dict(part="single", F0="generic", flow=fl, fab=fab, reg=reg, vol="uniform", t0=t0, **{k: AXES[k][0] for k in AXES}))
     return keys
+
+
+CLOCKS = ["2e5", "-3e7", "1e9"]
+
+
+def shifted(fl, t0):
+    """The same flow on a time axis shifted by t0."""
+    if t0 == 0.0:
+        return fl
+    return H.Flow(fl.name + "@t0", lambda t, x: fl.L(t - t0, x), lambda t: fl.x(t - t0), const=fl.const)
 
 
 def partitions(span):
@@ -134,13 +151,15 @@ def trace_integral(fl, t0, t1):
 
 def run_case(key):
     res = empty_result()
-    fl = H.flow(key["flow"])
+    T0 = float(key.get("t0", 0.0))
+    fl0 = H.flow(key["flow"])  # the reference solution is always computed on the unshifted clock
+    fl = shifted(fl0, T0)
     F0 = H.f0(key["F0"])
     span = 1.0
     obs = []
     spans = [1.0] if alph.TIER == "quick" else [1.0, 2.0]
     for span in spans:
-        Fref_whole = H.ref_F(fl, F0, 0.0, span)
+        Fref_whole = H.ref_F(fl0, F0, 0.0, span)
         finals = {}
         for tag, steps in partitions(span):
             tag = f"{tag}@{span}"
@@ -158,7 +177,8 @@ def run_case(key):
                 for x in names[::-1] if key["order"] == "rev" else names:
                     fabn = "olA" if x == "ol" else "enAB"
                     minerals.append(H.build_mineral(dict(fab=fabn, reg="disl", tex="random", vol="uniform", ng=4)))
-            F, t, strain, N = F0.copy(), 0.0, 0.0, 0
+            F, t, strain, N = F0.copy(), T0, 0.0, 0
+            tau = 0.0
             ok = True
             for dt in steps:
                 res["n"] += 1
@@ -175,10 +195,11 @@ def run_case(key):
                     ok = False
                     break
                 N += 1
-                strain += fl.strain(t, t + dt)
+                strain += fl0.strain(tau, tau + dt)
                 t += dt
-                Fref = H.ref_F(fl, F0, 0.0, t) if abs(t - span) > 1e-12 else Fref_whole
-                check_F(res, key, F, Fref, F0, trace_integral(fl, 0.0, t), N, strain, tag)
+                tau += dt  # elapsed time on the unshifted clock (exact sums of the partition)
+                Fref = H.ref_F(fl0, F0, 0.0, tau) if abs(tau - span) > 1e-12 else Fref_whole
+                check_F(res, key, F, Fref, F0, trace_integral(fl0, 0.0, tau), N, strain, tag)
                 res["states"] += 1
             if ok:
                 finals[tag] = (np.asarray(F, float), N, strain)
@@ -196,7 +217,7 @@ def run_case(key):
                     k = dict(key)
                     k["partition"] = tag
                     res["viol"].append({"clause": "split_equals_whole", "key": k, "detail": {"rel_err": err, "bound": b}})
-    Lm = fl.L(0.3, fl.x(0.3))
+    Lm = fl0.L(0.3, fl0.x(0.3))
     if np.abs(Lm).max() > 0 and (fl.const is None or np.abs(Lm @ F0 - F0 @ Lm).max() > 1e-9):
         res["nontrivial"].append(digest(key))
     res["outcomes"].append(digest(*[np.round(o, 6) for o in obs]))
